@@ -199,6 +199,55 @@ def pollPrelude (stale : Timer → Bool) (s : St) : St :=
 /-- second guard: `if (tq_count || listener_count) janet_loop1_impl(...)` — does the loop block in the kernel? -/
 def willPoll (s : St) : Bool := !s.timers.isEmpty || s.lc != 0
 
+/-! ### one `janet_loop1` step and `janet_loop`, with the C's three phases
+
+What the model does not decide itself is an input: which timeouts have expired and whom they schedule, what each popped task
+does while it runs (its bookkeeping operations, whether it ends suspended), which timeouts the C test classifies as stale,
+and what the kernel delivers during the poll. -/
+
+/-- a task popped from `janet_vm.spawn` -/
+structure Task where
+  fiber : Fid
+  /-- `task.expected_sched_id != task.fiber->sched_id`: popped (and un-flagged) but not run -/
+  skipped : Bool
+  /-- bookkeeping operations performed while the fiber runs (astart, await, procWait, tadd, sched, tchanPend, post, …) -/
+  ops : List Ev
+  /-- janet_continue_signal returned EVENT / YIELD / INTERRUPT -/
+  suspended : Bool
+
+def Task.events (t : Task) : List Ev :=
+  .pop t.fiber :: (if t.skipped then [] else t.ops ++ [.ran t.fiber t.suspended])
+
+structure StepIn where
+  /-- phase 1: `while (peek_timeout(&to) && to.when <= now) { pop_timeout(0); … janet_cancel / janet_schedule … }` -/
+  expired : List (Timer × Option Fid)
+  /-- phase 2: `while (spawn.head != spawn.tail) { pop; if SUSPENDED dec; run; if is_suspended inc; }` -/
+  tasks : List Task
+  /-- phase 3: the staleness test of the drop loop -/
+  stale : Timer → Bool
+  /-- what `janet_loop1_impl` delivers (self-pipe events, stream callbacks ending listeners, schedules) -/
+  delivered : List Ev
+
+def expireEvents : List (Timer × Option Fid) → List Ev
+  | [] => []
+  | (t, none) :: r => .tpop t :: expireEvents r
+  | (t, some f) :: r => .tpop t :: .sched f :: expireEvents r
+
+def loop1 (cfg : Cfg) (s : St) (i : StepIn) : Option St :=
+  match run cfg s (expireEvents i.expired ++ (i.tasks.map Task.events).flatten) with
+  | none => none
+  | some s1 =>
+    let s2 := pollPrelude i.stale s1
+    if willPoll s2 then run cfg s2 i.delivered else some s2
+
+/-- `void janet_loop(void) { while (!janet_loop_done()) janet_loop1(); }` on a script of step inputs -/
+def janetLoop (cfg : Cfg) : St → List StepIn → Option St
+  | s, [] => some s
+  | s, i :: is => if loopDone s then some s else
+    match loop1 cfg s i with
+    | none => none
+    | some s' => janetLoop cfg s' is
+
 /-! ### generated tables the model mirrors -/
 
 def doneSpec : List String :=
